@@ -370,6 +370,27 @@ Definition registry_load {A} (parse : string -> option A) (f : file_state) : out
   | Text t => match parse t with Some v => Ok (RParsed v) | None => Err 2 end
   end.
 
+(* NodeRegistry::save: File::create + write_all -- the file's whole content is replaced by the formatter's
+   output, whatever was there before *)
+Definition file_write (old : file_state) (text : string) : file_state := Text text.
+
+(* NOT the code: opening without truncation keeps the tail of a longer previous content -- kept only for
+   `write_without_truncate_refuted` (why save -> shorter save -> load sequences are in the generated stream) *)
+Fixpoint sdrop (n : nat) (s : string) : string :=
+  match n, s with
+  | O, _ => s
+  | S k, String _ r => sdrop k r
+  | S _, EmptyString => EmptyString
+  end.
+Definition file_write_no_truncate (old : file_state) (text : string) : file_state :=
+  match old with
+  | Text o => Text (append text (sdrop (String.length text) o))
+  | _ => Text text
+  end.
+
+(* a history of saves on one path, then what is on disk *)
+Definition saves (init : file_state) (texts : list string) : file_state := fold_left file_write texts init.
+
 (* ------------------------------------------------------------------ RecordHeader::from_record (ant-protocol/src/storage/header.rs) *)
 Definition HEADER_SIZE : N := Consts.c17_header_size.
 
@@ -522,6 +543,18 @@ Definition agree_registry (fkind : N) (text : string) (parse_ok : bool) (res : N
   | Ok (RParsed _) => res =? 1
   | Err _ => res =? 2
   | Panic => false
+  end.
+
+(* save sequence on one path: after each save the implementation's file equals the formatter's output
+   (what `file_write` says), step by step from the previous content *)
+Fixpoint agree_saves (cur : file_state) (steps : list (string * string)) : bool :=
+  match steps with
+  | [] => true
+  | (fmt, file_after) :: rest =>
+      match file_write cur fmt with
+      | Text t => String.eqb t file_after && agree_saves (Text t) rest
+      | _ => false
+      end
   end.
 
 Definition agree_header (value : list N) (oracle : option N) (kind : N) (k : N) : bool :=
